@@ -336,3 +336,192 @@ Proof.
   split; [exists t'; rewrite Htree; assumption|]. split; [intros ty' N; rewrite Htree; apply Hothers; assumption|].
   split; [intros id Hid; simpl; apply P5; simpl; assumption | simpl; simpl in P6; assumption].
 Qed.
+
+Lemma ANIaddentry_spec : forall s ty annref etag eref new s' id,
+  Inv s -> 1 <= annref <= MAX_REF -> l_num s ty <> -1 ->
+  ~ In annref (tree_refs (match l_tree s ty with Some t => t | None => [] end)) ->
+  atype2tag ty = Some (tag_of_type ty) ->
+  ANIaddentry s ty annref etag eref new = (s', id) ->
+  let tg := if is_data_type ty then (etag, eref) else (tag_of_type ty, annref) in
+  id = l_next s /\ 0 <= id /\
+  (exists t t', l_tree s ty = Some t /\ l_tree s' ty = Some t' /\
+     tins (AN_CREATE_KEY ty annref) (mkentry id annref (fst tg) (snd tg)) t = Some t') /\
+  (forall ty', ty' <> ty -> l_tree s' ty' = l_tree s ty' /\ l_num s' ty' = l_num s ty') /\
+  l_num s' ty = l_num s ty + 1 /\
+  l_atoms s' = (id, mknode (AN_CREATE_KEY ty annref) new) :: l_atoms s /\ l_dds s' = l_dds s /\ l_next s' = id + 1.
+Proof.
+  intros s ty annref etag eref new s' id HI Hr Hnum Hfresh Et H. unfold ANIaddentry in H.
+  destruct (l_num s ty =? -1) eqn:E; [apply Z.eqb_eq in E; congruence|]. clear E. rewrite Et in H.
+  pose proof (atype2tag_ok _ _ Et) as Hty.
+  match type of H with context [add_core s ty annref ?a ?b new] => destruct (add_core s ty annref a b new) as [[s2 id2]|] eqn:Ea end.
+  - inversion H; subst s' id; clear H.
+    destruct (add_core_Inv _ _ _ _ _ _ _ _ HI Hr Ea) as [HI2 [Hid [Hd [Hn [Ht [[t [t' [A [B C]]]] Hat]]]]]].
+    assert (Hnx : l_next s2 = l_next s + 1) by (unfold add_core in Ea; rewrite A in Ea; destruct (tins _ _ t); inversion Ea; subst; reflexivity).
+    split; [assumption|]. split; [subst; apply (inv_next _ HI)|].
+    split; [exists t, t'; split; [assumption|]; split; [simpl; rewrite upd_same; assumption | exact C]|].
+    split; [intros ty' N; simpl; rewrite !upd_other by assumption; split; [apply Ht; assumption | apply Hn]|].
+    split; [simpl; rewrite upd_same; rewrite Hn; reflexivity|]. split; [simpl; assumption|]. split; [simpl; assumption | simpl; lia].
+  - exfalso. unfold add_core in Ea. destruct (l_tree s ty) as [t|] eqn:Etr.
+    + match type of Ea with context [tins ?k ?e t] => destruct (tins_some t k e) as [t' Hs] end.
+      * intros Hin. destruct (tkeys_refs _ _ _ _ HI Etr Hin) as [r [Hr1 [Hk Hr2]]].
+        rewrite MAX_REF_val in *. apply key_inj in Hk; try (unfold tyok in Hty; lia). destruct Hk; subst. auto.
+      * rewrite Hs in Ea. discriminate.
+    + apply (inv_num _ HI) in Etr. congruence.
+Qed.
+
+Lemma ANid2tagref_spec : forall l id ty ref, Inv l ->
+  (ANid2tagref l id = Some (tag_of_type ty, ref) /\ tyok ty <->
+   exists nd, zassoc id (l_atoms l) = Some nd /\ AN_KEY2TYPE (n_key nd) = ty /\ AN_KEY2REF (n_key nd) = ref /\ tyok ty).
+Proof.
+  intros l id ty ref HI. unfold ANid2tagref. destruct (zassoc id (l_atoms l)) as [nd|] eqn:Ez.
+  - destruct (switches_agree (AN_KEY2TYPE (n_key nd))) as [S1 _]. rewrite S1.
+    destruct (atype2tag (AN_KEY2TYPE (n_key nd))) as [g|] eqn:Eg.
+    + apply atype2tag_iff in Eg. destruct Eg as [T ->]. split.
+      * intros [H Hty]. inversion H. exists nd. split; [reflexivity|]. split; [symmetry; apply tag_of_type_inj; auto|]. auto.
+      * intros [nd' [H [A [B C]]]]. inversion H; subst nd'. subst. auto.
+    + split; [intros [H _]; discriminate|]. intros [nd' [H [A [B C]]]]. inversion H; subst nd'.
+      rewrite A in Eg. rewrite (proj2 (atype2tag_iff ty _) (conj C eq_refl)) in Eg. discriminate.
+  - split; [intros [H _]; discriminate | intros [nd' [H _]]; discriminate].
+Qed.
+
+Lemma not_in_refs_hfind : forall tag ref dds, ~ In ref (map d_ref (of_tag tag dds)) -> hfind tag ref dds = None.
+Proof.
+  intros tag ref dds H. unfold hfind. destruct (find (dd_is tag ref) dds) as [d|] eqn:E; [|reflexivity].
+  exfalso. apply H. apply find_some in E. destruct E as [A B]. unfold dd_is in B. apply andb_true_iff in B.
+  destruct B as [B1 B2]. apply Z.eqb_eq in B1. apply Z.eqb_eq in B2. rewrite <- B2. apply in_map. unfold of_tag.
+  apply filter_In. split; [assumption | apply Z.eqb_eq; assumption].
+Qed.
+
+Lemma tag_of_type_range : forall ty, tyok ty -> 0 <= tag_of_type ty < 65536.
+Proof. intros ty H. unfold tyok in H. assert (ty = 0 \/ ty = 1 \/ ty = 2 \/ ty = 3) as [-> | [-> | [-> | ->]]] by lia; vm_compute; split; congruence. Qed.
+
+Definition new_ann (ty ref etag eref : Z) : ann :=
+  mkann (ty, ref) (if is_data ty then etag else tag_of_type ty) (if is_data ty then eref else ref) None.
+
+Lemma ANIcreate_sim : forall s etag eref ty s' id, Good s -> 0 <= etag < 65536 -> 0 <= eref < 65536 ->
+  ANIcreate s etag eref ty = (s', id) ->
+  Good s' /\ l_dds s' = l_dds s /\
+  (forall id0 tr, ANid2tagref s id0 = Some tr -> ANid2tagref s' id0 = Some tr) /\
+  (forall ty' t, l_tree s ty' = Some t -> exists t', l_tree s' ty' = Some t') /\
+  ((id = FAILV /\ (forall x, Repr s' x <-> Repr s x) /\
+    (~ tyok ty \/ (is_data ty = true /\ (etag = 0 \/ eref = 0)) \/ (tyok ty /\ exists s1, ANInewref s1 ty (tag_of_type ty) = 0)))
+   \/ (id <> FAILV /\ tyok ty /\ (is_data ty = true -> etag <> 0 /\ eref <> 0) /\ exists ref, 1 <= ref <= MAX_REF /\
+       ANid2tagref s' id = Some (tag_of_type ty, ref) /\
+       (forall x, a_key x = (ty, ref) -> ~ Repr s x) /\
+       (forall x, Repr s' x <-> Repr s x \/ x = new_ann ty ref etag eref))).
+Proof.
+  intros s etag eref ty s' id HG Het Her H. unfold ANIcreate in H.
+  destruct (atype2tag ty) as [tag|] eqn:Et.
+  2:{ inversion H; subst s' id. split; [assumption|]. split; [reflexivity|]. split; [auto|]. split; [eauto|].
+      left. split; [reflexivity|]. split; [tauto|]. left. intros T. rewrite (proj2 (atype2tag_iff ty _) (conj T eq_refl)) in Et. discriminate. }
+  apply atype2tag_iff in Et. destruct Et as [Hty ->]. set (tag := tag_of_type ty) in *.
+  assert (Hload : exists s1 n, (if l_num s ty =? -1 then ANIcreate_ann_tree s ty else (s, 0)) = (s1, n) /\
+            Good s1 /\ n <> FAILV /\ l_dds s1 = l_dds s /\ (forall x, Repr s1 x <-> Repr s x) /\ (exists t, l_tree s1 ty = Some t) /\
+            (forall ty', ty' <> ty -> l_tree s1 ty' = l_tree s ty') /\
+            (forall i, i < l_next s -> zassoc i (l_atoms s1) = zassoc i (l_atoms s)) /\ l_next s <= l_next s1).
+  { destruct (l_num s ty =? -1) eqn:En.
+    - destruct (ANIcreate_ann_tree s ty) as [s1 n] eqn:Ec. exists s1, n. split; [reflexivity|].
+      destruct (create_tree_Good _ _ _ _ HG Hty Ec) as [A [B [C [D [E [F [G1 G2]]]]]]].
+      split; [exact A|]. split; [exact B|]. split; [exact C|]. split; [exact D|]. split; [exact E|]. split; [exact F|]. split; [exact G1 | exact G2].
+    - exists s, 0. split; [reflexivity|]. split; [assumption|]. split; [unfold FAILV; lia|]. split; [reflexivity|]. split; [tauto|].
+      apply Z.eqb_neq in En. split; [|split; [auto|split; [auto|lia]]].
+      destruct (l_tree s ty) eqn:E; [eauto|]. apply (inv_num _ (proj1 HG)) in E. contradiction. }
+  destruct Hload as [s1 [n [E1 [[HI1 HT1] [Hn [Hd1 [HR1 [[t1 Ht1] [Hoth1 [Hat1 Hnx1]]]]]]]]]]. rewrite E1 in H.
+  destruct (n =? FAILV) eqn:En; [apply Z.eqb_eq in En; contradiction|]. clear En.
+  assert (Hids1 : forall id0 tr, ANid2tagref s id0 = Some tr -> ANid2tagref s1 id0 = Some tr).
+  { intros id0 tr X. unfold ANid2tagref in *. destruct (zassoc id0 (l_atoms s)) as [nd|] eqn:Ez; [|discriminate].
+    pose proof (inv_ids _ (proj1 HG) _ _ (zassoc_In _ _ _ _ Ez)) as Hlt. rewrite Hat1 by lia. rewrite Ez. exact X. }
+  assert (Htrees1 : forall ty' t, l_tree s ty' = Some t -> exists t', l_tree s1 ty' = Some t').
+  { intros ty' t X. destruct (Z.eq_dec ty' ty) as [->|N]; [eauto|]. rewrite Hoth1 by assumption. eauto. }
+  remember (ANInewref s1 ty tag) as annref eqn:Er.
+  set (tg := if is_data_type ty then (etag, eref) else (tag, annref)) in *.
+  match type of H with (if ?c then _ else _) = _ => destruct c eqn:Ez end.
+  { inversion H; subst s' id. split; [split; assumption|]. split; [assumption|]. split; [assumption|]. split; [assumption|].
+    left. split; [reflexivity|]. split; [assumption|].
+    apply orb_true_iff in Ez. destruct Ez as [Ez|Ez]; [apply orb_true_iff in Ez; destruct Ez as [Ez|Ez]|].
+    - apply Z.eqb_eq in Ez. right. right. split; [assumption|]. exists s1. congruence.
+    - unfold tg in Ez. rewrite is_data_same in Ez. destruct (is_data ty) eqn:Ed; simpl in Ez.
+      + apply Z.eqb_eq in Ez. right. left. auto.
+      + apply Z.eqb_eq in Ez. pose proof (tag_of_type_range ty Hty). unfold tag in Ez.
+        exfalso. unfold tyok in Hty. assert (ty = 0 \/ ty = 1 \/ ty = 2 \/ ty = 3) as [-> | [-> | [-> | ->]]] by lia; vm_compute in Ez; discriminate.
+    - unfold tg in Ez. rewrite is_data_same in Ez. destruct (is_data ty) eqn:Ed; simpl in Ez.
+      + apply Z.eqb_eq in Ez. right. left. auto.
+      + apply Z.eqb_eq in Ez. right. right. split; [assumption|]. exists s1. congruence. }
+  apply orb_false_iff in Ez. destruct Ez as [Ez Ez3]. apply orb_false_iff in Ez. destruct Ez as [Ez1 Ez2].
+  apply Z.eqb_neq in Ez1. apply Z.eqb_neq in Ez2. apply Z.eqb_neq in Ez3.
+  destruct (ANInewref_fresh _ _ _ _ (eq_sym Er) Ez1) as [Hr [Hf Hff]].
+  assert (Hnum1 : l_num s1 ty <> -1) by (intros X; apply (inv_num _ HI1) in X; congruence).
+  assert (Et' : atype2tag ty = Some (tag_of_type ty)) by (apply atype2tag_iff; auto).
+  destruct (ANIaddentry_spec _ _ _ _ _ _ _ _ HI1 Hr Hnum1 Hf Et' H) as [Hid [Hid0 [[t [t' [A [B C]]]] [Hoth [Hnum' [Hat [Hd' Hnx']]]]]]].
+  destruct (ANIaddentry_Inv _ _ _ _ _ _ _ _ HI1 Hr Hnum1 Hf H) as [HI' _].
+  rewrite Ht1 in A. inversion A; subst t.
+  assert (Htg2 : (if is_data_type ty then (fst tg, snd tg) else (tag_of_type ty, annref)) = tg) by (unfold tg, tag; destruct (is_data_type ty); reflexivity).
+  rewrite Htg2 in C.
+  assert (Htg : tg = (if is_data ty then etag else tag, if is_data ty then eref else annref)).
+  { unfold tg. rewrite is_data_same. destruct (is_data ty); reflexivity. }
+  assert (Htgr : 0 <= fst tg < 65536 /\ 0 <= snd tg < 65536).
+  { rewrite Htg. rewrite MAX_REF_val in Hr. pose proof (tag_of_type_range ty Hty). destruct (is_data ty); simpl; unfold tag; lia. }
+  assert (Hold_atoms : forall i nd, zassoc i (l_atoms s1) = Some nd -> zassoc i (l_atoms s') = Some nd).
+  { intros i nd X. rewrite Hat. simpl. pose proof (inv_ids _ HI1 _ _ (zassoc_In _ _ _ _ X)). destruct (i =? id) eqn:Ei; [apply Z.eqb_eq in Ei; lia | assumption]. }
+  assert (Hhf : hfind tag annref (l_dds s1) = None) by (apply not_in_refs_hfind; assumption).
+  assert (HT' : TF s').
+  { constructor; rewrite ?Hd'.
+    - apply (tf_nodup _ HT1). - apply (tf_len _ HT1). - apply (tf_tags _ HT1).
+    - intros ty' t0 d Htr Hd0 Hg. destruct (Z.eq_dec ty' ty) as [->|N].
+      + rewrite B in Htr. inversion Htr; subst t0. destruct (tf_file _ HT1 ty t1 d Ht1 Hd0 Hg) as [e [X Y]].
+        exists e. split; [apply (tins_In _ _ _ _ C); right; assumption | assumption].
+      + destruct (Hoth ty' N) as [X _]. rewrite X in Htr. apply (tf_file _ HT1 ty' t0 d Htr Hd0 Hg).
+    - intros ty' t0 k e nd Htr Hin Hz Hnew. destruct (Z.eq_dec ty' ty) as [->|N].
+      + rewrite B in Htr. inversion Htr; subst t0. apply (tins_In _ _ _ _ C) in Hin. destruct Hin as [Hin|Hin].
+        * inversion Hin; subst. simpl in Hz. rewrite Hat in Hz. simpl in Hz. rewrite Z.eqb_refl in Hz. inversion Hz; subst. discriminate.
+        * destruct (inv_tree _ HI1 ty t1 Ht1) as [_ [_ Hent]]. destruct (Hent _ _ Hin) as [_ [_ [nd0 [Z0 _]]]].
+          rewrite (Hold_atoms _ _ Z0) in Hz. inversion Hz; subst nd0. apply (tf_old _ HT1 ty t1 k e nd Ht1 Hin Z0 Hnew).
+      + destruct (Hoth ty' N) as [X _]. rewrite X in Htr.
+        destruct (inv_tree _ HI1 ty' t0 Htr) as [_ [_ Hent]]. destruct (Hent _ _ Hin) as [_ [_ [nd0 [Z0 _]]]].
+        rewrite (Hold_atoms _ _ Z0) in Hz. inversion Hz; subst nd0. apply (tf_old _ HT1 ty' t0 k e nd Htr Hin Z0 Hnew).
+    - intros ty' t0 Htr. destruct (Z.eq_dec ty' ty) as [->|N].
+      + rewrite B in Htr. inversion Htr; subst t0. rewrite Hnum', (tf_num _ HT1 _ _ Ht1). unfold zlen. rewrite (tins_length _ _ _ _ C). lia.
+      + destruct (Hoth ty' N) as [X Y]. rewrite X in Htr. rewrite Y. apply (tf_num _ HT1 _ _ Htr).
+    - intros ty' t0 k e Htr Hin. destruct (Z.eq_dec ty' ty) as [->|N].
+      + rewrite B in Htr. inversion Htr; subst t0. apply (tins_In _ _ _ _ C) in Hin. destruct Hin as [Hin|Hin].
+        * inversion Hin; subst. simpl. exact Htgr.
+        * apply (tf_range _ HT1 ty t1 k e Ht1 Hin).
+      + destruct (Hoth ty' N) as [X _]. rewrite X in Htr. apply (tf_range _ HT1 ty' t0 k e Htr Hin). }
+  split; [split; assumption|]. split; [congruence|].
+  split.
+  { intros id0 tr X. apply Hids1 in X. unfold ANid2tagref in *. destruct (zassoc id0 (l_atoms s1)) as [nd|] eqn:Ez; [|discriminate].
+    rewrite (Hold_atoms _ _ Ez). exact X. }
+  split.
+  { intros ty' t0 X. destruct (Htrees1 _ _ X) as [t2 Y]. destruct (Z.eq_dec ty' ty) as [->|N]; [eauto|].
+    destruct (Hoth ty' N) as [Z1 _]. rewrite Z1. eauto. }
+  right. split; [unfold FAILV; lia|]. split; [assumption|].
+  split.
+  { intros Hd0. rewrite Htg in Ez2, Ez3. rewrite Hd0 in Ez2, Ez3. simpl in *. auto. }
+  exists annref. split; [assumption|].
+  rewrite MAX_REF_val in Hr.
+  split.
+  { apply (ANid2tagref_spec s' id ty annref HI'). eexists. rewrite Hat. simpl. rewrite Z.eqb_refl. split; [reflexivity|]. simpl.
+    split; [apply key_type | split; [apply key_ref | assumption]]; unfold tyok in Hty; lia. }
+  split.
+  { intros x Hk Hx. apply HR1 in Hx. destruct x as [[xt xr] xg xf xtx]. simpl in Hk. inversion Hk; subst xt xr.
+    destruct Hx as [_ [[d [D1 [D2 [D3 _]]]]|[_ [_ [t0 [e [C1 [C2 _]]]]]]]]; simpl in *.
+    - apply Hff. rewrite <- D3. apply in_map. unfold of_tag. apply filter_In. split; [assumption | apply Z.eqb_eq; assumption].
+    - rewrite Ht1 in C1. inversion C1; subst t0. apply Hf. rewrite Ht1. unfold tree_refs. apply in_map_iff. exists (AN_CREATE_KEY ty annref, e).
+      split; [|assumption]. simpl. destruct (inv_tree _ HI1 ty t1 Ht1) as [_ [_ Hent]]. destruct (Hent _ _ C2) as [R1 [R2 _]].
+      rewrite MAX_REF_val in R1. apply key_inj in R2; try (unfold tyok in Hty; lia). }
+  intros [[xt xr] xg xf xtx]. rewrite <- HR1. unfold Repr, new_ann. cbn [a_key a_text a_ttag a_tref fst snd]. rewrite Hd'. split.
+  - intros [[T R] [X|[X1 [X2 [t0 [e [C1 [C2 C3]]]]]]]]; [left; split; [auto | left; exact X]|].
+    destruct (Z.eq_dec xt ty) as [->|N].
+    + rewrite B in C1. inversion C1; subst t0. apply (tins_In _ _ _ _ C) in C2. destruct C2 as [C2|C2].
+      * right. inversion C2 as [[K E0]]. rewrite MAX_REF_val in R. apply key_inj in K; try (unfold tyok in Hty; lia). destruct K as [_ K].
+        subst xr e. simpl in C3. rewrite Htg in C3. simpl in C3. inversion C3. subst. reflexivity.
+      * left. split; [auto|]. right. split; [assumption|]. split; [assumption|]. exists t1, e. auto.
+    + left. split; [auto|]. right. split; [assumption|]. split; [assumption|]. exists t0, e. destruct (Hoth xt N) as [Z1 _]. rewrite <- Z1. auto.
+  - intros [[[T R] [X|[X1 [X2 [t0 [e [C1 [C2 C3]]]]]]]]|X].
+    + split; [auto|]. left. exact X.
+    + split; [auto|]. right. split; [assumption|]. split; [assumption|]. destruct (Z.eq_dec xt ty) as [->|N].
+      * rewrite Ht1 in C1. inversion C1; subst t0. exists t', e. split; [assumption|]. split; [apply (tins_In _ _ _ _ C); right; assumption | assumption].
+      * exists t0, e. destruct (Hoth xt N) as [Z1 _]. rewrite Z1. auto.
+    + inversion X; subst. split; [split; [assumption | rewrite MAX_REF_val; lia]|]. right. split; [reflexivity|]. split; [exact Hhf|].
+      exists t'. eexists. split; [assumption|]. split; [apply (tins_In _ _ _ _ C); left; reflexivity|]. simpl. rewrite Htg. reflexivity.
+Qed.
